@@ -46,6 +46,7 @@ def run(chk, crate="rssl_hlsl", P="C01"):
     rule_export_modind(chk, crate, P)
     rule_stmt_eval(chk, crate, P)
     rule_single_eval(chk, crate, P)
+    rule_enum_literal(chk, crate, P)
     if P == "C01":
         rule_conv(chk, P)
     rule_text(chk, P)
@@ -345,6 +346,72 @@ def rule_single_eval(chk, crate, P):
             chk.ob("%s.once/%s" % (P, fam), bad is None, bad or "%d expressions: `i++` is exported exactly as often as it occurs (or the node is refused)" % len(lst), where(gen),
                    sample={"family": fam, "expressions": len(lst)})
     chk.floor(P + ".floor/single-evaluation", n, 30, "expressions with an effect exported", where(gen))
+    return True
+
+
+def rule_enum_literal(chk, crate, P):
+    """generate_literal on constants of enum type, read on a module with two enums (EnumRegistry is rssl's own, walked too;
+    only the name map is a stand-in that answers with the id it is asked for): a constant equal to a declared enumerator is
+    written as THAT enumerator of THAT enum; a value that no enumerator has is written as a cast of the number to the enum."""
+    f = chk.facts
+    gl = f.fn("generate_literal", crate)
+    if not gl:
+        return False
+    ok = lambda v: I.Enum("Result", "Ok", {"0": v})
+    loc = lambda v: I.Enum("Located", None, {"node": v, "location": I.Opaque("location")})
+    tid = lambda n: I.Enum("TypeId", None, {"0": n})
+    eid = lambda n: I.Enum("EnumId", None, {"0": n})
+    vid = lambda n: I.Enum("EnumValueId", None, {"0": n})
+    C = lambda k, v: I.Enum("Constant", k, {"0": v})
+    # enum 0: Red=1 Green=2 Blue=4 (ids 0,1,2); enum 1: Off=0 Slow=10 Fast=20 Alias=10 (ids 3,4,5,6)
+    vals = [(0, "Red", 1), (0, "Green", 2), (0, "Blue", 4), (1, "Off", 0), (1, "Slow", 10), (1, "Fast", 20), (1, "Alias", 10)]
+    reg = I.Enum("EnumRegistry", None, {
+        "definitions": [I.Enum("EnumDefinition", None, {"name": loc(n), "namespace": I.Enum("Option", "None")}) for n in ("Colour", "Mode")],
+        "type_ids": [tid(50), tid(51)], "underlying_type_ids": [tid(2), tid(2)], "underlying_scalars": [I.Enum("ScalarType", "Int32")] * 2,
+        "enum_value_id_for_type": [[vid(0), vid(1), vid(2)], [vid(3), vid(4), vid(5), vid(6)]],
+        "enum_values": [I.Enum("EnumValue", None, {"enum_id": eid(e), "type_id": tid(50 + e), "name": loc(n), "value": C("Int32", v), "underlying_type_id": tid(2)}) for e, n, v in vals]})
+
+    def deref(v):
+        return v.get() if isinstance(v, I.Ref) else v
+    ext = {"get_enum_value_name_full": lambda a: ok(I.Enum("ScopedName", None, {"0": ["<value %d>" % deref(a[1]).fields["0"]]})),
+           "get_enum_name_full": lambda a: ok(I.Enum("ScopedName", None, {"0": ["<enum %d>" % deref(a[1]).fields["0"]]})),
+           "get_enum_value_name": lambda a: ok("<value %d>" % deref(a[1]).fields["0"]), "get_enum_name": lambda a: ok("<enum %d>" % deref(a[1]).fields["0"]),
+           "generate_type_id": lambda a: ok(I.Enum("TypeId", None, {"carried": a[0]}))}
+    ctx = I.Enum("GenerateContext", None, {"module": I.Enum("Module", None, {"enum_registry": reg}), "name_map": I.Opaque("name map")})
+
+    def names(v, out):
+        if isinstance(v, str) and v.startswith("<"):
+            out.append(v)
+        elif isinstance(v, I.Enum):
+            for x in v.fields.values():
+                names(x, out)
+        elif isinstance(v, (list, tuple)):
+            for x in v:
+                names(x, out)
+    bad = None
+    n = 0
+    for e, val, want in ((0, 1, ["<value 0>"]), (0, 4, ["<value 2>"]), (1, 0, ["<value 3>"]), (1, 10, ["<value 4>", "<value 6>"]), (1, 20, ["<value 5>"]), (0, 3, ["<enum 0>"]), (1, 1, ["<enum 1>"]),
+                         (1, 2, ["<enum 1>"])):
+        ip = I.Interp(f, max_depth=8, extern=ext)
+        try:
+            r = ip.apply(gl, [C("Enum", None) if False else I.Enum("Constant", "Enum", {"0": eid(e), "1": C("Int32", val)}), ctx])
+        except I.Unknown as ex:
+            if "panicking" in str(ex):
+                bad = bad or "exporting the constant %d of enum %s aborts (%s)" % (val, ("Colour", "Mode")[e], str(ex)[:60])
+                continue
+            chk.note("%s.enum-literal: generate_literal is not readable (%s)" % (P, str(ex)[:80]))
+            return False
+        n += 1
+        if not (isinstance(r, I.Enum) and r.variant == "Ok"):
+            continue
+        got = []
+        names(r.fields["0"], got)
+        label = {"<value %d>" % i: "%s::%s" % (("Colour", "Mode")[e_], nm) for i, (e_, nm, _v) in enumerate(vals)}
+        label.update({"<enum 0>": "(Colour)<number>", "<enum 1>": "(Mode)<number>"})
+        if not got or got[0] not in want:
+            bad = bad or "the constant %d of enum %s is written as %s, must be %s" % (val, ("Colour", "Mode")[e], label.get(got[0], got[0]) if got else "a bare literal", " or ".join(label[w] for w in want))
+    chk.ob(P + ".enum-literal/names-its-own-enumerator", bad is None, bad or "%d constants of two enums are written as their own enumerators, or as casts when no enumerator has the value" % n, where(gl),
+           sample={"constants": n})
     return True
 
 
